@@ -160,29 +160,31 @@ Qed.
 
 (* on the shared parser, after any history: for every accepted string, the reported names are the lexical
    scan of its token stream *)
-Theorem reported_names_are_the_tokens : forall junk ops s ts t,
+Theorem reported_names_are_the_tokens : forall junk engine ops s ts t,
+  engine (strip_spaces s) = false ->
   check_brackets (strip_spaces s) = None -> lex (strip_spaces s) = Some ts -> parse_tokens ts = Some t ->
-  exists l, snd (step junk faithful (run junk faithful init ops) (OParse s)) = VP (VTree t l) /\
+  exists l, snd (step junk engine faithful (run junk engine faithful init ops) (OParse s)) = VP (VTree t l) /\
             nperm l (scan_names ts).
 Proof.
-  intros junk ops s ts t B L P.
+  intros junk engine ops s ts t He B L P.
   assert (PF : parse_formula s = PTree t) by (unfold parse_formula; rewrite B, L, P; reflexivity).
-  destruct (reported_names_exact junk ops s t PF) as (l & H1 & H2).
+  destruct (reported_names_exact junk engine ops s t He PF) as (l & H1 & H2).
   exists l. split; [assumption|]. rewrite (token_names ts t P). assumption.
 Qed.
 
 (* every explicit rendering of a derivation -- canonical tokens, arbitrary TAB / LF / CR runs around them,
    spaces anywhere -- reports exactly the derivation's occurrences (tokens valid in the sense of C03's lexer
    round trip, which excludes suffixes beginning with e / E: for those use names_exact_string) *)
-Theorem names_exact_rendering : forall junk ops e seps s,
+Theorem names_exact_rendering : forall junk engine ops e seps s,
+  engine (strip_spaces s) = false ->
   wf_expr e = true -> Forall valid_token (render e) -> Forall (fun w => forallb is_ws w = true) seps ->
   strip_spaces s = spaced seps (render e) ->
-  exists l, snd (step junk faithful (run junk faithful init ops) (OParse s)) = VP (VTree (flatten e) l) /\
+  exists l, snd (step junk engine faithful (run junk engine faithful init ops) (OParse s)) = VP (VTree (flatten e) l) /\
             nperm l (enames e).
 Proof.
-  intros junk ops e seps s W V S E.
+  intros junk engine ops e seps s He W V S E.
   assert (PF : parse_formula s = PTree (flatten e)).
   { apply (parse_formula_rendering (flatten e) seps s); [apply flatten_wf; assumption|assumption|assumption|assumption]. }
-  destruct (reported_names_exact junk ops s _ PF) as (l & H1 & H2).
+  destruct (reported_names_exact junk engine ops s _ He PF) as (l & H1 & H2).
   exists l. split; [assumption|]. rewrite <- names_flatten. assumption.
 Qed.
